@@ -94,6 +94,9 @@ func reifyUnpackCase(r *Rng, t *tyNode, cfgData map[string]interface{}, pol int,
 	if p := policyOpts[pol]; p.opt != nil {
 		opts = append(opts, p.opt)
 	}
+	if t.usesCheckTag() {
+		opts = append(opts, ucfg.ValidatorTag("check"))
+	}
 	cfg, err := ucfg.NewFrom(cfgData, ucfg.PathSep("."))
 	if err != nil {
 		return Case{}, false
@@ -234,23 +237,23 @@ type vHook struct {
 }
 
 var vInitTy = &tyNode{Kind: "struct", Fields: []tyField{
-	{"A", "a", "min=1", &tyNode{Kind: "prim", Prim: primKinds[1]}},
-	{"B", "b", "min=1", &tyNode{Kind: "prim", Prim: primKinds[1]}},
-	{"C", "c", "", &tyNode{Kind: "prim", Prim: primKinds[1]}}}}
+	{"A", "a", "min=1", &tyNode{Kind: "prim", Prim: primKinds[1]}, "", false},
+	{"B", "b", "min=1", &tyNode{Kind: "prim", Prim: primKinds[1]}, "", false},
+	{"C", "c", "", &tyNode{Kind: "prim", Prim: primKinds[1]}, "", false}}}
 
 func vInitGV(x vInit) string {
 	return fmt.Sprintf("(GStructV [GP (CI (%d)); GP (CI (%d)); GP (CI (%d))])", int(x.A), int(x.B), int(x.C))
 }
 
 var vRangeTy = &tyNode{Kind: "struct", Fields: []tyField{
-	{"Min", "min", "", &tyNode{Kind: "prim", Prim: primKinds[1]}},
-	{"Max", "max", "", &tyNode{Kind: "prim", Prim: primKinds[1]}},
-	{"Name", "name", "", &tyNode{Kind: "prim", Prim: primKinds[9]}}}}
+	{"Min", "min", "", &tyNode{Kind: "prim", Prim: primKinds[1]}, "", false},
+	{"Max", "max", "", &tyNode{Kind: "prim", Prim: primKinds[1]}, "", false},
+	{"Name", "name", "", &tyNode{Kind: "prim", Prim: primKinds[9]}, "", false}}}
 var vOuterTy = &tyNode{Kind: "struct", Fields: []tyField{
-	{"Label", "label", "", &tyNode{Kind: "prim", Prim: primKinds[9]}},
-	{"R", "r", "", vRangeTy},
-	{"P", "p", "", &tyNode{Kind: "ptr", Elem: vRangeTy}},
-	{"Keep", "keep,ignore", "", &tyNode{Kind: "prim", Prim: primKinds[1]}}}}
+	{"Label", "label", "", &tyNode{Kind: "prim", Prim: primKinds[9]}, "", false},
+	{"R", "r", "", vRangeTy, "", false},
+	{"P", "p", "", &tyNode{Kind: "ptr", Elem: vRangeTy}, "", false},
+	{"Keep", "keep,ignore", "", &tyNode{Kind: "prim", Prim: primKinds[1]}, "", false}}}
 
 func hookedCases(g *Gen) {
 	r := g.R
@@ -431,8 +434,29 @@ func genReify(g *Gen, mode string) {
 			} else if tcfg.Validators && r.P(1, 12) {
 				t, cfgData, fix = ptrInvalid(r)
 			}
+			dual := mode == "C04" && fix == nil && r.P(1, 5)
+			if dual {
+				// the same Go type carries validators under two tag names: it is unpacked once per name
+				dualize(r, t)
+				if r.Bool() {
+					t = swapTags(t)
+				}
+			}
 			if c, ok := reifyUnpackCase(r, t, cfgData, []int{0, 0, 1, 2, 3}[r.Intn(5)], pz, fix); ok {
+				if dual {
+					c.Tags = append(c.Tags, "dual-tag:first")
+				}
 				g.Add(c)
+			}
+			if dual {
+				t2 := swapTags(t)
+				if t2.goType() != t.goType() {
+					panic("swapTags changed the Go type")
+				}
+				if c, ok := reifyUnpackCase(r, t2, cfgData, []int{0, 0, 1, 2, 3}[r.Intn(5)], pz, nil); ok {
+					c.Tags = append(c.Tags, "dual-tag:second")
+					g.Add(c)
+				}
 			}
 		}
 	}
